@@ -107,6 +107,19 @@ def check_single(case, ctx):
             pass
         ctx.check(ref.vec_close(e0, r, scale), "evaluator",
                   "evaluator.evaluate at %r = %r, definition gives %r" % (us, e0, ref.fl(r)))
+    # parameters that are whole numbers (both ends of a [0, 1] domain, ends of integer knot ranges) written as Python ints
+    ints = [(us, rs) for us, rs in zip(plist, refs) if all(float(int(u)) == u for u in us)]
+    if ints:
+        ctx.label("integer-typed-parameters")
+        for us, (r, scale) in ints:
+            ius = [int(u) for u in us]
+            gi = obj.evaluate_single(build.call_param(obj, ius))
+            ctx.check(ref.vec_close(gi, r, scale), "evaluate_single-int", "evaluate_single(%r) = %r, definition gives %r" % (ius, gi, ref.fl(r)))
+        mixed = [build.call_param(obj, [int(u) for u in us]) if (us, rs) in ints else build.call_param(obj, us) for us, rs in zip(plist, refs)]
+        gl = obj.evaluate_list(mixed)
+        ctx.check(len(gl) == len(plist), "evaluate_list-int-size", "evaluate_list(%r) returned %d points for %d in-domain parameters" % (mixed, len(gl), len(plist)))
+        for g, (r, scale), us in zip(gl, refs, mixed):
+            ctx.check(ref.vec_close(g, r, scale), "evaluate_list-int", "evaluate_list entry for %r = %r, definition gives %r" % (us, g, ref.fl(r)))
     got = obj.evaluate_list([build.call_param(obj, us) for us in plist])
     ctx.check(len(got) == len(plist), "evaluate_list-size",
               "evaluate_list of %d in-domain parameters returned %d points" % (len(plist), len(got)))
